@@ -469,6 +469,70 @@ func ruleR02_2(c *Check) {
 	ts := w.Field("badger.committedTxn.ts")
 	txRead := w.Field("badger.Txn.readTs")
 	f := w.F("badger.oracle.hasConflict")
+	// the scan over the committed-transaction log is exhaustive: the loop over committedTxns is left
+	// early only by `return true`. (The log is NOT sorted by timestamp in managed mode, so stopping at the
+	// first non-concurrent entry skips concurrent ones.)
+	committed := w.Field("badger.oracle.committedTxns")
+	var scan ast.Stmt
+	f.walk(func(n ast.Node) bool {
+		switch x := n.(type) {
+		case *ast.RangeStmt:
+			if w.fieldOf(x.X) == committed {
+				scan = x
+			}
+		case *ast.ForStmt:
+			if scan == nil && (x.Init != nil && w.mentions(x.Init, committed) || x.Cond != nil && w.mentions(x.Cond, committed)) {
+				scan = x
+			}
+		}
+		return true
+	})
+	if scan == nil {
+		panic(anchorError{"loop over oracle.committedTxns in hasConflict"})
+	}
+	exhaustive := true
+	var at ast.Node
+	ast.Inspect(scan, func(n ast.Node) bool {
+		switch x := n.(type) {
+		case *ast.BranchStmt:
+			if x.Tok == token.BREAK || x.Tok == token.GOTO {
+				// a break belongs to the scan unless an inner loop encloses it
+				inner := false
+				for p := w.parentOf(x); p != nil && p != ast.Node(scan); p = w.parentOf(p) {
+					switch p.(type) {
+					case *ast.ForStmt, *ast.RangeStmt, *ast.SwitchStmt, *ast.SelectStmt:
+						inner = true
+					}
+				}
+				if !inner {
+					exhaustive, at = false, x
+				}
+			}
+		case *ast.ReturnStmt:
+			if len(x.Results) == 1 {
+				if tv := w.Info.Types[x.Results[0]]; tv.Value == nil || tv.Value.String() != "true" {
+					exhaustive, at = false, x
+				}
+			}
+		}
+		return true
+	})
+	r.Check(exhaustive, f, "every committed transaction in the log is examined", at, "the scan over committedTxns can stop before the end of the log (break / return false inside the loop): entries are not ordered by timestamp in managed mode, so a concurrent writer behind the stopping point is missed")
+	if fs, ok := scan.(*ast.ForStmt); ok {
+		// an index loop must cover the whole slice: start 0 (or len-1) and step 1 — accept only a plain full walk
+		full := false
+		if init, ok := fs.Init.(*ast.AssignStmt); ok && len(init.Rhs) == 1 {
+			if v, ok := w.constInt(init.Rhs[0]); ok && v == 0 {
+				full = true
+			}
+			if be, ok := unparen(init.Rhs[0]).(*ast.BinaryExpr); ok && be.Op == token.SUB && w.mentions(be.X, committed) {
+				if v, ok := w.constInt(be.Y); ok && v == 1 {
+					full = true
+				}
+			}
+		}
+		r.Check(full, f, "index scan starts at an end of the log", fs, "the scan does not start at the first or the last entry")
+	}
 	// the `continue` that skips a committed txn
 	f.walk(func(n ast.Node) bool {
 		b, ok := n.(*ast.BranchStmt)
